@@ -41,6 +41,8 @@ def run(tier):
         noninterference(chk, F, ty)
         predicates(chk, F, ty)
         re_forms(chk, F, ty)
+        if GRADINGS[ty]["vec"]:
+            representation_independence(chk, F, ty)
     for ty in FIELD4:
         comparisons(chk, F, ty)
         selections(chk, F, ty)
@@ -102,6 +104,99 @@ def noninterference(chk, F, ty):
                required="deps(re) and deps(guards) within {operand.re, scalar parameters}")
 
 
+def term_operand(ty, opname, presence=None):
+    from ..interp import Term
+    g = GRADINGS[ty]
+    f = {}
+    for field, pd in g["parts"]:
+        t = Term(("var:%s.%s" % (opname, field),))
+        if not pd:
+            f[field] = Sc(t)
+        else:
+            present = True if presence is None else presence.get(field, True)
+            f[field] = Rec("Derivative", {"0": Opt(True, Mat(t, g["shapes"][field])) if present else Opt(False), "1": PHANTOM})
+    f["f"] = PHANTOM
+    return Rec(ty, f)
+
+
+def representation_independence(chk, F, ty):
+    """the real part of every result is computed by the SAME float operations whichever presence pattern the operands have
+    (an absent part and an explicit zero part must not change a single bit of the real part): the uninterpreted term of
+    result.re, per decision-tree path, is identical for all presence patterns"""
+    from ..interp import DomT, Term
+    import itertools
+    pats = presence_patterns(ty)
+    for label, body, tr in ops.operations(F, ty):
+        name = body["name"]
+        if name in ("floor", "ceil", "round", "trunc", "fract") or tr in ("From", "Zero", "One"):
+            continue
+        key0 = "repr|%s|%s" % (ty, label)
+        sig = body.get("sig_in", [])
+        n_dual = 0
+        for ti in sig:
+            t = F.peel(ti)
+            if (t["k"] == "adt" and t["n"].split("::")[-1] == ty) or (t["k"] == "param" and t["n"] == "Self"):
+                n_dual += 1
+        if n_dual == 0 or n_dual > 2:
+            continue
+        reference = None
+        bad = []
+        undecided = None
+        combos = list(itertools.product(pats, repeat=n_dual))
+        if len(combos) > 64:
+            combos = [c for c in combos if sum(sum(p.values()) for p in c) in (0, 1, sum(len(p) for p in c) - 1, sum(len(p) for p in c))]
+        for combo in combos:
+            it_ops = iter(combo)
+            dom = DomT()
+            state = {}
+
+            def thunk(ctx, combo=combo):
+                it = Interp(F, dom, ctx=ctx)
+                ps = iter(combo)
+                names = iter(["a", "b", "c"])
+
+                def mk(n):
+                    return term_operand(ty, n, next(ps))
+                args, cells = ops.build_args(F, ty, body, mk, lambda n: Sc(Term(("var:param." + n,))))
+                if args is None:
+                    raise Unsupported("signature outside the fragment")
+                v = it.call_body(body, args)
+                state["cells"] = cells
+                return v
+            try:
+                paths = explore(thunk, max_paths=64)
+            except Unsupported as ex:
+                undecided = str(ex)
+                break
+            sigset = set()
+            for ctx, val in paths:
+                if isinstance(val, PanicEx):
+                    continue
+                outs = []
+                collect_results(unref(val), ty, outs)
+                for cell in state.get("cells") or []:
+                    collect_results(unref(cell[0]), ty, outs)
+                cond = tuple(sorted((repr(k), b) for (k, d, b, forced) in ctx.trace if k[0] != "dim"))
+                for r in outs:
+                    re = unref(r.f["re"])
+                    if isinstance(re, Sc):
+                        sigset.add((cond, re.v.show()))
+            if reference is None:
+                reference = (combo, sigset)
+            elif sigset != reference[1]:
+                diff = sorted(x[1] for x in (sigset ^ reference[1]))[:2]
+                bad.append("presence %s computes the real part as %s" % ("".join(pres_tag(p) for p in combo), diff))
+        if undecided:
+            if "signature outside" in undecided:
+                continue
+            chk.undecide(key0, "unsupported: %s" % undecided, body_loc(F, body))
+            continue
+        chk.count("operations checked for representation independence")
+        chk.ob(key0, not bad, "the real part is computed by the same operations for every presence pattern of the operands' optional parts",
+               body_loc(F, body), found="; ".join(bad[:3]) or "identical real-part term for %d presence combinations" % len(combos),
+               required="one real-part term", nontrivial=True)
+
+
 def allowed(d):
     return d.endswith(".re") or d.startswith("param.")
 
@@ -159,6 +254,40 @@ def single_pred_forward(chk, F, key, body, sp, pred, operand="a"):
     chk.count("predicate items")
 
 
+def default_is_one(chk, F, key, imp, ty, sp):
+    """`is_one` not overridden: num_traits' provided method is `*self == Self::one()`, i.e. the type's PartialEq"""
+    one_body = F.impl_item(imp, "one")
+    if one_body is None:
+        chk.undecide(key, "missing anchor: One::one for %s" % ty)
+        return
+
+    def thunk(ctx):
+        it = Interp(F, DOMK, ctx=ctx)
+        one = unref(it.call_body(one_body, []))
+        return it.rec_compare("eq", "==", sp.operand("a"), one, None, None)
+    try:
+        paths = explore(thunk)
+    except Unsupported as ex:
+        chk.undecide(key, "unsupported: %s" % ex, F.loc(imp["l"]))
+        return
+    from .c01 import guard_on_re_only
+    bad = []
+    for ctx, val in paths:
+        re_dec = None
+        for (k, d, b, forced) in ctx.trace:
+            if not guard_on_re_only(k):
+                bad.append(d)
+            elif re_dec is None:
+                re_dec = b
+        v = unref(val)
+        if isinstance(v, BoolV) and re_dec is not None and v.b != re_dec:
+            bad.append("result %s although the real-part test says %s (presence of derivative parts decides)" % (v.b, re_dec))
+    chk.ob(key, not bad, "is_one (num_traits default `*self == Self::one()`) is decided by the real part only", F.loc(imp["l"]),
+           found="compares derivative parts: %s" % sorted(set(bad))[:4] if bad else "real part only (%d paths)" % len(paths),
+           required="is_one(a.re)")
+    chk.count("predicate items")
+
+
 def predicates(chk, F, ty):
     sp = Spec(ty)
     for tr, preds in (("Zero", ["is_zero"]), ("One", ["is_one"]), ("Signed", ["is_positive", "is_negative"])):
@@ -166,6 +295,9 @@ def predicates(chk, F, ty):
         for pred in preds:
             body = F.impl_item(imps[0], pred) if len(imps) == 1 else None
             key = "pred|%s|%s" % (ty, pred)
+            if body is None and pred == "is_one" and len(imps) == 1:
+                default_is_one(chk, F, key, imps[0], ty, sp)
+                continue
             if body is None:
                 chk.undecide(key, "missing anchor: %s::%s for %s" % (tr, pred, ty))
                 continue
